@@ -193,6 +193,8 @@ package keeper
 
 // ApplyMessageWithConfig: gas accounting of one executed message (C05) and the receipt it stores (C13).
 //@ func (k *Keeper) ApplyMessageWithConfig(ctx sdk.Context, msg core.Message, tracer corevm.EVMLogger, commit bool, cfg *evmvm.EVMConfig, txConfig evmvm.TxConfig) (res *evmtypes.MsgEthereumTxResponse, err error)
+// (helper cpc2, C17) the cpc keeper is wired: NewEVM reads the precompile registry through it
+//@   requires k.cpcKeeper.storeKey != nil && k.cpcKeeper.cdc != nil
 //@   requires k != nil && cfg != nil && msg != nil && cfg.ChainConfig != nil
 //@   requires msg.GasPrice() != nil && msg.GasFeeCap() != nil && msg.GasTipCap() != nil && msg.Value() != nil
 //@   requires bigval[msg.Value()] >= 0
@@ -240,6 +242,8 @@ package keeper
 // ApplyTransaction: the gas the consensus result reports equals the receipt's gas (C05); every core error consumes
 // the whole gas limit (the two earlier error returns need an unknown block proposer / an invalid signature).
 //@ func (k *Keeper) ApplyTransaction(ctx sdk.Context, tx *ethtypes.Transaction) (res *evmtypes.MsgEthereumTxResponse, err error)
+// (helper cpc2, C17) the cpc keeper is wired: NewEVM reads the precompile registry through it
+//@   requires k.cpcKeeper.storeKey != nil && k.cpcKeeper.cdc != nil
 //@   requires k != nil && tx != nil && ctx.GasMeter() != nil
 //@   requires txValue(tx) >= 0
 //@   requires txType(tx) <= 2 && gmLimit(payload(ctx.GasMeter())) == txGas(tx) && gmConsumed[payload(ctx.GasMeter())] <= gmLimit(payload(ctx.GasMeter()))
@@ -308,6 +312,8 @@ package keeper
 // to the gas the consensus result reports (C05). Preconditions are the facts the ante handler chain establishes
 // (decodable payload, valid bech32 sender that equals the recovered signer, gas meter limited to the tx gas).
 //@ func (k *Keeper) EthereumTx(goCtx context.Context, msg *evmtypes.MsgEthereumTx) (res *evmtypes.MsgEthereumTxResponse, err error)
+// (helper cpc2, C17) the cpc keeper is wired: NewEVM reads the precompile registry through it
+//@   requires k.cpcKeeper.storeKey != nil && k.cpcKeeper.cdc != nil
 //@   requires k != nil && msg != nil && typeof(goCtx) == type(sdk.Context) && k.feeMarketKeeper != nil && k.bankKeeper != nil
 //@   requires bech32Valid(msg.From) && txDecodable(bytes(msg.MarshalledTx)) && decType(bytes(msg.MarshalledTx)) <= 2
 //@   requires bech32Bytes(msg.From) == addrBytes(decSender(bytes(msg.MarshalledTx)))
@@ -355,6 +361,8 @@ package keeper
 // EthCall: the persistent state seen through the query context is exactly what it was (only block-scoped transient
 // bookkeeping of that context is written), for every request.
 //@ func (k Keeper) EthCall(c context.Context, req *evmtypes.EthCallRequest) (res *evmtypes.MsgEthereumTxResponse, err error)
+// (helper cpc2, C17) the cpc keeper is wired: NewEVM reads the precompile registry through it
+//@   requires k.cpcKeeper.storeKey != nil && k.cpcKeeper.cdc != nil
 //@   requires typeof(c) == type(sdk.Context)
 //@   modifies trGas[layer(sdk.UnwrapSDKContext(c))], trLogs[layer(sdk.UnwrapSDKContext(c))], trReceipt[layer(sdk.UnwrapSDKContext(c))], trHasReceipt[layer(sdk.UnwrapSDKContext(c))], elems(type(common.Address))
 //@   ensures[C08.eth_call_no_persistent_change] wVersion[layer(sdk.UnwrapSDKContext(c))] == old(wVersion[layer(sdk.UnwrapSDKContext(c))]) && bankBal[layer(sdk.UnwrapSDKContext(c))] == old(bankBal[layer(sdk.UnwrapSDKContext(c))]) && bankSupply[layer(sdk.UnwrapSDKContext(c))] == old(bankSupply[layer(sdk.UnwrapSDKContext(c))]) && acctSeq[layer(sdk.UnwrapSDKContext(c))] == old(acctSeq[layer(sdk.UnwrapSDKContext(c))]) && acctExists[layer(sdk.UnwrapSDKContext(c))] == old(acctExists[layer(sdk.UnwrapSDKContext(c))])
@@ -363,6 +371,8 @@ package keeper
 
 // EstimateGas: same frame; and a successful estimate lies within (TxGas-1, cap].
 //@ func (k Keeper) EstimateGas(c context.Context, req *evmtypes.EthCallRequest) (res *evmtypes.EstimateGasResponse, err error)
+// (helper cpc2, C17) the cpc keeper is wired: NewEVM reads the precompile registry through it
+//@   requires k.cpcKeeper.storeKey != nil && k.cpcKeeper.cdc != nil
 //@   requires typeof(c) == type(sdk.Context)
 //@   requires req != nil ==> req.GasCap < pow2(63)
 //@   modifies trGas, trLogs, trReceipt, trHasReceipt, elems(type(common.Address))
